@@ -283,7 +283,7 @@ def expected_set_ops(a, b):
 
 
 def run(ctx):
-    from bermuda import Triangle
+    from bermuda import Metadata, Triangle
 
     ctx.rule = ("pairs (t, variant): permuted / generator-built / re-typed (Cell<->CumulativeCell) / re-formatted "
                 "(int<->float, dict order) / binary- and JSON-round-tripped copies (must be ==, equal hashes); proper "
@@ -361,6 +361,18 @@ def run(ctx):
         t, info = g.triangle(n_slices=g.r.randint(2, 4), n_periods=g.r.randint(8, 12), n_lags=g.r.randint(8, 12),
                              values=g.r.choice(["int", "arr_float"]), n_samples=g.r.choice([3, 257, 1200]), layout="regular")
         cells = list(t.cells)
+        want = [300, 1100, 2100, 3100][i % 4]
+        if len(cells) < want:
+            # grow to the wanted size with further slices (copies of the cells under distinct details)
+            extra, k = [], 0
+            while len(cells) + len(extra) < want:
+                k += 1
+                for c in cells:
+                    m = c.metadata
+                    extra.append(rebuild(c, metadata=Metadata(**{**{x: getattr(m, x) for x in ATTRS}, "details": {**m.details, "copy": k},
+                                                                 "loss_details": dict(m.loss_details)})))
+            t = Triangle(cells + extra)
+            cells = list(t.cells)
         if len(cells) < 100:
             continue
         ctx.hist("large:%d+ cells" % (100 * (len(cells) // 100)))
